@@ -8,6 +8,7 @@ import NngModel.Proofs.SurveyOut
 import NngModel.Proofs.SurveyPoll
 import NngModel.Proofs.SurveyRespPoll
 import NngModel.Spec.Survey
+import NngModel.Generated.C07
 namespace Nng.C07
 open Nng Nng.Proto
 
